@@ -7,7 +7,7 @@ import json
 from harness import chars, core, drivers, findings, tlc
 
 L1 = ['a', 'b', 'sp', '.', 'flD', 'flE', 'cb', 'selD', 'selE']
-L2 = ['a', 'sp', 'flD', 'flF', 'cb', 'selF', 'babD', 'olD', 'eol', 'olsF', 'eols', 'fn', 'nl']
+L2 = ['a', 'sp', 'flD', 'flF', 'cb', 'selF', 'babD', 'dclF', 'olD', 'eol', 'olsF', 'eols', 'fn', 'nl']
 L3 = ['a', 'b', 'sp', 'flD', 'cb', 'fn', 'add', 'selD', 'lb', 'uk', 'ob', 'fnm', 'it']
 LALL = sorted(set(L1 + L2 + L3))
 OPTS = {'pack': 'xcolor,listings,amsmath,babel,amsthm'}
